@@ -102,16 +102,44 @@ func oidStr(o []int) string {
 	return strings.Join(p, ".")
 }
 
+// guard copies `in` into a buffer with sentinel-filled spare capacity; check reports whether the call under
+// test wrote anywhere into it.
+func guard(in []byte) (buf []byte, check func() bool) {
+	full := make([]byte, len(in)+16)
+	copy(full, in)
+	for i := len(in); i < len(full); i++ {
+		full[i] = 0xa5
+	}
+	snap := append([]byte(nil), full...)
+	return full[:len(in):len(full)], func() bool { return !bytes.Equal(full, snap) }
+}
+
+// execRd: every out-parameter is pre-filled with non-zero garbage (a reader must overwrite, not merge with,
+// what the destination held); the input buffer incl. spare capacity must come back untouched.
 func execRd(o hx.Op) string {
+	in, mutated := guard(input(o))
+	res := execRdInner(o, in)
+	if res == "bad-op" {
+		return res
+	}
+	return res + " mutated=" + b01(mutated())
+}
+
+func execRdInner(o hx.Op, in []byte) string {
 	f := o.Str("f")
-	in := input(o)
 	s := cryptobyte.String(in)
+	garb := fnv64(in) | 0x8101010101010181
+	garbBytes := func() []byte {
+		b := make([]byte, 3, 16)
+		b[0], b[1], b[2] = 0xde, byte(garb), 0xad
+		return b
+	}
 	rest := func() string { return " rest=" + showB([]byte(s)) }
 	none := tail("", false, false, false)
 	switch f {
 	case "any":
-		var out cryptobyte.String
-		var t asn1.Tag
+		out := cryptobyte.String(garbBytes())
+		t := asn1.Tag(0xee)
 		ok := s.ReadAnyASN1(&out, &t)
 		var rv encasn1.RawValue
 		aOK, aRest := asn1Try(in, &rv, "")
@@ -125,16 +153,16 @@ func execRd(o hx.Op) string {
 		}
 		return fin(ok, fmt.Sprintf("tag=%02x out=%s", byte(t), showB(out))+rest(), tail("H", ok, aOK, same))
 	case "anyel":
-		var out cryptobyte.String
-		var t asn1.Tag
+		out := cryptobyte.String(garbBytes())
+		t := asn1.Tag(0xee)
 		ok := s.ReadAnyASN1Element(&out, &t)
 		return fin(ok, fmt.Sprintf("tag=%02x out=%s", byte(t), showB(out))+rest(), none)
 	case "asn1":
-		var out cryptobyte.String
+		out := cryptobyte.String(garbBytes())
 		ok := s.ReadASN1(&out, tagOf(o))
 		return fin(ok, "out="+showB(out)+rest(), none)
 	case "elem":
-		var out cryptobyte.String
+		out := cryptobyte.String(garbBytes())
 		ok := s.ReadASN1Element(&out, tagOf(o))
 		return fin(ok, "out="+showB(out)+rest(), none)
 	case "skip":
@@ -143,8 +171,8 @@ func execRd(o hx.Op) string {
 	case "peek":
 		return "ok v=" + b01(s.PeekASN1Tag(tagOf(o))) + none
 	case "opt":
-		var out cryptobyte.String
-		var present bool
+		out := cryptobyte.String(garbBytes())
+		present := garb&2 == 0
 		ok := s.ReadOptionalASN1(&out, &present, tagOf(o))
 		if !present {
 			out = nil
@@ -154,61 +182,61 @@ func execRd(o hx.Op) string {
 		ok := s.SkipOptionalASN1(tagOf(o))
 		return fin(ok, strings.TrimPrefix(rest(), " "), none)
 	case "bigint":
-		v := new(big.Int)
+		v := new(big.Int).Neg(new(big.Int).SetBytes(garbBytes()))
 		ok := s.ReadASN1Integer(v)
 		var av *big.Int
 		aOK, aRest := asn1Try(in, &av, "")
 		same := ok && aOK && av.Cmp(v) == 0 && bytes.Equal(aRest, s)
 		return fin(ok, "v="+v.String()+rest(), tail("S", ok, aOK, same))
 	case "intbytes":
-		var out []byte
+		out := garbBytes()
 		ok := s.ReadASN1Integer(&out)
 		return fin(ok, "out="+showB(out)+rest(), none)
 	case "int64tag":
-		var v int64
+		v := int64(garb)
 		ok := s.ReadASN1Int64WithTag(&v, tagOf(o))
 		return fin(ok, fmt.Sprintf("v=%d", v)+rest(), none)
 	case "enum":
-		var v int
+		v := int(garb)
 		ok := s.ReadASN1Enum(&v)
 		var av encasn1.Enumerated
 		aOK, aRest := asn1Try(in, &av, "")
 		same := ok && aOK && int(av) == v && bytes.Equal(aRest, s)
 		return fin(ok, fmt.Sprintf("v=%d", v)+rest(), tail("S", ok, aOK, same))
 	case "bool":
-		var v bool
+		v := garb&4 == 0
 		ok := s.ReadASN1Boolean(&v)
 		var av bool
 		aOK, aRest := asn1Try(in, &av, "")
 		same := ok && aOK && av == v && bytes.Equal(aRest, s)
 		return fin(ok, "v="+b01(v)+rest(), tail("S", ok, aOK, same))
 	case "oid":
-		var v encasn1.ObjectIdentifier
+		v := encasn1.ObjectIdentifier{9, 9, int(garb >> 40)}
 		ok := s.ReadASN1ObjectIdentifier(&v)
 		var av encasn1.ObjectIdentifier
 		aOK, aRest := asn1Try(in, &av, "")
 		same := ok && aOK && av.Equal(v) && bytes.Equal(aRest, s)
 		return fin(ok, "v="+oidStr(v)+rest(), tail("S", ok, aOK, same))
 	case "bits":
-		var v encasn1.BitString
+		v := encasn1.BitString{Bytes: garbBytes(), BitLength: 77}
 		ok := s.ReadASN1BitString(&v)
 		var av encasn1.BitString
 		aOK, aRest := asn1Try(in, &av, "")
 		same := ok && aOK && av.BitLength == v.BitLength && bytes.Equal(av.Bytes, v.Bytes) && bytes.Equal(aRest, s)
 		return fin(ok, fmt.Sprintf("bits=%d out=%s", v.BitLength, showB(v.Bytes))+rest(), tail("S", ok, aOK, same))
 	case "bitbytes":
-		var out []byte
+		out := garbBytes()
 		ok := s.ReadASN1BitStringAsBytes(&out)
 		return fin(ok, "out="+showB(out)+rest(), none)
 	case "octet":
-		var out []byte
+		out := garbBytes()
 		ok := s.ReadASN1Bytes(&out, asn1.OCTET_STRING)
 		var av []byte
 		aOK, aRest := asn1Try(in, &av, "")
 		same := ok && aOK && bytes.Equal(av, out) && bytes.Equal(aRest, s)
 		return fin(ok, "out="+showB(out)+rest(), tail("S", ok, aOK, same))
 	case "optint64":
-		var v int64
+		v := int64(garb)
 		d, err := strconv.ParseInt(o.Str("def"), 10, 64)
 		if err != nil {
 			panic(err)
@@ -216,70 +244,70 @@ func execRd(o hx.Op) string {
 		ok := s.ReadOptionalASN1Integer(&v, tagOf(o), d)
 		return fin(ok, fmt.Sprintf("v=%d", v)+rest(), none)
 	case "optbigint":
-		v := new(big.Int)
+		v := new(big.Int).Neg(new(big.Int).SetBytes(garbBytes()))
 		d, _ := new(big.Int).SetString(o.Str("def"), 10)
 		ok := s.ReadOptionalASN1Integer(v, tagOf(o), d)
 		return fin(ok, "v="+v.String()+rest(), none)
 	case "optintbytes":
-		var v []byte
+		v := garbBytes()
 		ok := s.ReadOptionalASN1Integer(&v, tagOf(o), o.Hex("def"))
 		return fin(ok, "out="+showB(v)+rest(), none)
 	case "optbool":
-		var v bool
+		v := garb&4 == 0
 		ok := s.ReadOptionalASN1Boolean(&v, tagOf(o), o.Int("def") != 0)
 		return fin(ok, "v="+b01(v)+rest(), none)
 	case "optoctet":
-		var out []byte
-		var present bool
+		out := garbBytes()
+		present := garb&2 == 0
 		ok := s.ReadOptionalASN1OctetString(&out, &present, tagOf(o))
 		return fin(ok, "present="+b01(present)+" out="+showB(out)+rest(), none)
 	case "int8":
-		var v int8
+		v := int8(garb)
 		ok := s.ReadASN1Integer(&v)
 		return fin(ok, fmt.Sprintf("v=%d", v)+rest(), none)
 	case "int16":
-		var v int16
+		v := int16(garb)
 		ok := s.ReadASN1Integer(&v)
 		return fin(ok, fmt.Sprintf("v=%d", v)+rest(), none)
 	case "int32":
-		var v int32
+		v := int32(garb)
 		ok := s.ReadASN1Integer(&v)
 		var av int32
 		aOK, aRest := asn1Try(in, &av, "")
 		same := ok && aOK && av == v && bytes.Equal(aRest, s)
 		return fin(ok, fmt.Sprintf("v=%d", v)+rest(), tail("S", ok, aOK, same))
 	case "int64":
-		var v int64
+		v := int64(garb)
 		ok := s.ReadASN1Integer(&v)
 		var av int64
 		aOK, aRest := asn1Try(in, &av, "")
 		same := ok && aOK && av == v && bytes.Equal(aRest, s)
 		return fin(ok, fmt.Sprintf("v=%d", v)+rest(), tail("S", ok, aOK, same))
 	case "int":
-		var v int
+		v := int(garb)
 		ok := s.ReadASN1Integer(&v)
 		var av int
 		aOK, aRest := asn1Try(in, &av, "")
 		same := ok && aOK && av == v && bytes.Equal(aRest, s)
 		return fin(ok, fmt.Sprintf("v=%d", v)+rest(), tail("S", ok, aOK, same))
 	case "uint8":
-		var v uint8
+		v := uint8(garb)
 		ok := s.ReadASN1Integer(&v)
 		return fin(ok, fmt.Sprintf("v=%d", v)+rest(), none)
 	case "uint16":
-		var v uint16
+		v := uint16(garb)
 		ok := s.ReadASN1Integer(&v)
 		return fin(ok, fmt.Sprintf("v=%d", v)+rest(), none)
 	case "uint32":
-		var v uint32
+		v := uint32(garb)
 		ok := s.ReadASN1Integer(&v)
 		return fin(ok, fmt.Sprintf("v=%d", v)+rest(), none)
 	case "uint64":
-		var v uint64
+		v := uint64(garb)
 		ok := s.ReadASN1Integer(&v)
 		return fin(ok, fmt.Sprintf("v=%d", v)+rest(), none)
 	case "uint":
-		var v uint
+		v := uint(garb)
 		ok := s.ReadASN1Integer(&v)
 		return fin(ok, fmt.Sprintf("v=%d", v)+rest(), none)
 	}
@@ -400,9 +428,22 @@ func execAdd(o hx.Op) string {
 func execTime(o hx.Op) string {
 	switch o.Str("f") {
 	case "rdutc", "rdgen":
-		in := input(o)
+		in, mutated := guard(input(o))
+		res := execTimeRd(o, in)
+		if mutated() {
+			return res + " mutated=1"
+		}
+		return res
+	case "addutc", "addgen":
+		return execTimeAdd(o)
+	}
+	return "bad-op"
+}
+
+func execTimeRd(o hx.Op, in []byte) string {
+	{
 		s := cryptobyte.String(in)
-		var t time.Time
+		t := time.Unix(int64(fnv64(in)>>24)|1, 0) // garbage destination
 		var ok bool
 		params := "utc"
 		wantTag := byte(asn1.UTCTime)
@@ -428,6 +469,11 @@ func execTime(o hx.Op) string {
 		_, o1 := t.Zone()
 		_, o2 := at.Zone()
 		return "time agree=" + b01(t.Equal(at) && o1 == o2 && bytes.Equal(aRest, s))
+	}
+}
+
+func execTimeAdd(o hx.Op) string {
+	switch o.Str("f") {
 	case "addutc", "addgen":
 		sec, _ := strconv.ParseInt(o.Str("t"), 10, 64)
 		off := o.Int("off")
